@@ -511,7 +511,7 @@ class StartStageHandler(
 
         # Now we have exclusive ownership - safe to do expensive planning
         try:
-            self._plan_stage(stage)
+            new_synthetic_stages = self._plan_stage(stage)
         except Exception as e:
             logger.error(
                 "Failed to plan stage %s (%s) in execution %s: %s",
@@ -526,12 +526,14 @@ class StartStageHandler(
         stage.context.pop("_plan_pending", None)
 
         # Collect messages to push BEFORE starting the transaction
-        messages_to_push = self._collect_start_messages(stage, message)
+        messages_to_push = self._collect_start_messages(stage, message, new_synthetic_stages)
 
         # Atomic: store planned stage + push all start messages together
         try:
             with self.repository.transaction(self.queue) as txn:
                 txn.store_stage(stage)
+                for synthetic in new_synthetic_stages:
+                    txn.store_stage(synthetic)
 
                 # Message deduplication
                 if message.message_id:
